@@ -475,6 +475,132 @@ func mgmtHandlerFacts(repo string) string {
 		"def mgmtGuardedCleanups : List (String × String × Nat) := [\n" + strings.Join(cleanups, ",\n") + "\n]\n"
 }
 
+// teardownFacts: the two facts the model of `rib/register` racing the teardown of its face needs
+// (lean/NdnVerif/C16/Teardown.lean):
+//
+//	faceRemoveDeletesBeforeCleanup  fw/face/table.go Table.Remove calls `t.faces.Delete(..)` exactly once, calls
+//	                                `table.Rib.CleanUpFace(..)` exactly once, and the first comes first
+//	registerRechecksFace            fw/mgmt/rib.go RIBModule.register: after its (only) `table.Rib.AddEncRoute(..)` call
+//	                                there is an `if face.FaceTable.Get(x) == nil { … table.Rib.CleanUpFace(x) … return }`
+//	                                with x the identifier the inserted Route's FaceID is set from
+func teardownFacts(repo string) string {
+	del, clean := []token.Pos{}, []token.Pos{}
+	fset := token.NewFileSet()
+	if f, err := parser.ParseFile(fset, filepath.Join(repo, "fw", "face", "table.go"), nil, 0); err == nil {
+		for _, d := range f.Decls {
+			fd, ok := d.(*ast.FuncDecl)
+			if !ok || fd.Body == nil || fd.Name.Name != "Remove" || recvType(fd) != "Table" {
+				continue
+			}
+			ast.Inspect(fd.Body, func(n ast.Node) bool {
+				switch n.(type) {
+				case *ast.FuncLit, *ast.GoStmt, *ast.DeferStmt, *ast.IfStmt, *ast.ForStmt, *ast.RangeStmt, *ast.SwitchStmt:
+					return false // only unconditional statements of the body itself count
+				}
+				c, ok := n.(*ast.CallExpr)
+				if !ok {
+					return true
+				}
+				if sel, ok := c.Fun.(*ast.SelectorExpr); ok {
+					if inner, ok := sel.X.(*ast.SelectorExpr); ok {
+						if sel.Sel.Name == "Delete" && inner.Sel.Name == "faces" {
+							del = append(del, c.Pos())
+						}
+						if sel.Sel.Name == "CleanUpFace" && inner.Sel.Name == "Rib" {
+							clean = append(clean, c.Pos())
+						}
+					}
+				}
+				return true
+			})
+		}
+	}
+	order := len(del) == 1 && len(clean) == 1 && del[0] < clean[0]
+
+	recheck := false
+	fset = token.NewFileSet()
+	if f, err := parser.ParseFile(fset, filepath.Join(repo, "fw", "mgmt", "rib.go"), nil, 0); err == nil {
+		for _, d := range f.Decls {
+			fd, ok := d.(*ast.FuncDecl)
+			if !ok || fd.Body == nil || fd.Name.Name != "register" || recvType(fd) != "RIBModule" {
+				continue
+			}
+			var adds []token.Pos
+			faceIdent := ""
+			ast.Inspect(fd.Body, func(n ast.Node) bool {
+				c, ok := n.(*ast.CallExpr)
+				if !ok {
+					return true
+				}
+				if sel, ok := c.Fun.(*ast.SelectorExpr); ok && sel.Sel.Name == "AddEncRoute" {
+					adds = append(adds, c.End())
+					ast.Inspect(c, func(m ast.Node) bool {
+						if kv, ok := m.(*ast.KeyValueExpr); ok {
+							if k, ok := kv.Key.(*ast.Ident); ok && k.Name == "FaceID" {
+								if v, ok := kv.Value.(*ast.Ident); ok {
+									faceIdent = v.Name
+								}
+							}
+						}
+						return true
+					})
+				}
+				return true
+			})
+			if len(adds) != 1 || faceIdent == "" {
+				continue
+			}
+			// top-level statements of the body after the insertion
+			for _, st := range fd.Body.List {
+				is, ok := st.(*ast.IfStmt)
+				if !ok || is.Pos() < adds[0] || is.Init != nil {
+					continue
+				}
+				be, ok := is.Cond.(*ast.BinaryExpr)
+				if !ok || be.Op != token.EQL {
+					continue
+				}
+				if nl, ok := be.Y.(*ast.Ident); !ok || nl.Name != "nil" {
+					continue
+				}
+				c, ok := be.X.(*ast.CallExpr)
+				if !ok || len(c.Args) != 1 {
+					continue
+				}
+				if a, ok := c.Args[0].(*ast.Ident); !ok || a.Name != faceIdent {
+					continue
+				}
+				sel, ok := c.Fun.(*ast.SelectorExpr)
+				if !ok || sel.Sel.Name != "Get" {
+					continue
+				}
+				if inner, ok := sel.X.(*ast.SelectorExpr); !ok || inner.Sel.Name != "FaceTable" {
+					continue
+				}
+				cleans, returns := false, false
+				for _, bs := range is.Body.List {
+					if es, ok := bs.(*ast.ExprStmt); ok {
+						if cc, ok := es.X.(*ast.CallExpr); ok {
+							if s2, ok := cc.Fun.(*ast.SelectorExpr); ok && s2.Sel.Name == "CleanUpFace" && len(cc.Args) == 1 {
+								if a, ok := cc.Args[0].(*ast.Ident); ok && a.Name == faceIdent {
+									cleans = true
+								}
+							}
+						}
+					}
+					if _, ok := bs.(*ast.ReturnStmt); ok {
+						returns = true
+					}
+				}
+				if cleans && returns {
+					recheck = true
+				}
+			}
+		}
+	}
+	return fmt.Sprintf("\n/-- fw/face/table.go Table.Remove: `t.faces.Delete` once, `table.Rib.CleanUpFace` once, in this order -/\ndef faceRemoveDeletesBeforeCleanup : Bool := %v\n\n/-- fw/mgmt/rib.go register: after the insertion, `if face.FaceTable.Get(f) == nil { table.Rib.CleanUpFace(f); …; return }` -/\ndef registerRechecksFace : Bool := %v\n", order, recheck)
+}
+
 func main() {
 	repo, out := os.Args[1], os.Args[2]
 	dir := filepath.Join(repo, "fw", "table")
@@ -549,6 +675,7 @@ func main() {
 	sb.WriteString(readvertiserFacts(repo))
 	sb.WriteString("\n")
 	sb.WriteString(mgmtHandlerFacts(repo))
+	sb.WriteString(teardownFacts(repo))
 	sb.WriteString("\nend Ndn.Gen.C16\n")
 	old, _ := os.ReadFile(out)
 	if string(old) != sb.String() {
